@@ -4,6 +4,7 @@ import Nsq.Proofs.AggregateSums
 import Nsq.Proofs.AggregateMerge
 import Nsq.Proofs.AggregateFetch
 import Nsq.Proofs.AggregateDedup
+import Nsq.Proofs.Fetch
 /-!
 # C18 — nsqadmin's cluster view equals the sum of its parts
 
@@ -535,5 +536,46 @@ example : (match view Fixes.all (chanWorld true) (.channel "t1" "nosuch") with
     | .ok v => v.status | .error _ => 0) = 404 := by decide
 example : (match view Fixes.all f4World .nodes with
     | .ok v => v.status | .error _ => 0) = 200 := by decide
+
+/-! ## fetch_terminates -/
+
+open Nsq.Model.Fetch Nsq.Proofs.Fetch in
+/-- **fetch_terminates.** The upstream request loop (`GETV1` / `POSTV1`) always ends, whatever the upstream
+answers on whatever port: it sends at most two requests — at most one on plain HTTP and at most one on HTTPS (the
+scheme upgrade on `403 {"https_port": N}` happens at most once) — the first one to the given endpoint. (No fuel:
+`getV1` is accepted by Lean with the measure "is the current endpoint plain".) So an upstream that answers 403 on
+both ports is one failed answer, and the view is built from the others (`partial_warning_*`). -/
+theorem fetch_terminates (srv : Endpoint → Resp) (e : Endpoint) :
+    (getV1 srv e).2.length ≤ 2 ∧
+    ((getV1 srv e).2.filter (fun x => x.https)).length ≤ 1 ∧
+    ((getV1 srv e).2.filter (fun x => !x.https)).length ≤ 1 ∧
+    (getV1 srv e).2.head? = some e := by
+  cases h : e.https with
+  | true =>
+    have := (getV1_https srv e h).1
+    simp [this, h]
+  | false =>
+    rcases getV1_plain srv e h with h1 | ⟨port, _, h2, _⟩
+    · simp [h1, h]
+    · simp [h2, h]
+
+open Nsq.Model.Fetch Nsq.Proofs.Fetch in
+/-- The five stub behaviours of the harness: the normal upgrade answers; 403 again on the TLS port, a closed TLS
+port, a 403 without or with an unusable `https_port` are one failed answer each, after 2, 2, 2 and 1 requests. -/
+theorem fetch_stub_outcomes :
+    getV1 (stub 7) ⟨false, 1⟩ = (.ok, [⟨false, 1⟩, ⟨true, 2⟩]) ∧
+    getV1 (stub 8) ⟨false, 1⟩ = (.failed, [⟨false, 1⟩, ⟨true, 2⟩]) ∧
+    getV1 (stub 9) ⟨false, 1⟩ = (.failed, [⟨false, 1⟩, ⟨true, 3⟩]) ∧
+    getV1 (stub 10) ⟨false, 1⟩ = (.failed, [⟨false, 1⟩, ⟨true, 0⟩]) ∧
+    getV1 (stub 11) ⟨false, 1⟩ = (.failed, [⟨false, 1⟩]) ∧
+    getV1 (stub 8) ⟨true, 2⟩ = (.failed, [⟨true, 2⟩]) := by
+  refine ⟨?_, ?_, ?_, ?_, ?_, ?_⟩ <;> simp [getV1, stub]
+
+open Nsq.Model.Fetch Nsq.Proofs.Fetch in
+/-- Witness for the loop with the upgrade condition computed once before the loop: against an upstream that
+answers `403 {"https_port": N}` on both ports it sends as many requests as it is given passes — it never stops. -/
+theorem fetch_with_stale_condition_never_stops (fuel : Nat) :
+    (getV1Stale (fun _ => .forbidden (some 2)) true fuel ⟨false, 1⟩).2.length = fuel :=
+  stale_uses_all_fuel 2 fuel _
 
 end Nsq.Props.C18
